@@ -899,6 +899,60 @@ def run_cursor_scenario(idx, sc):
         shutil.rmtree(root, ignore_errors=True)
 
 
+def run_idem_batch_scenario(idx, sc, texts):
+    """sc: {n, seed}: a directory is formatted in place on one worker thread; --mode=check over the directory plus one file that
+    is NOT formatted must then name exactly that file; a second in-place run rewrites nothing"""
+    root = tempfile.mkdtemp(prefix=f"j{idx}_", dir=CLI_ROOT)
+    problems = []
+    try:
+        rnd = random.Random(sc["seed"])
+        d = os.path.join(root, "src")
+        os.makedirs(d)
+        paths = []
+        for k in range(sc["n"]):
+            p = os.path.join(d, f"j{k:02d}.pas")
+            with open(p, "wb") as fh:
+                fh.write((rnd.choice(texts) + "\n").encode())
+            paths.append(p)
+        env = {"RAYON_NUM_THREADS": str(sc.get("threads", 1))}
+        rc, out, err = run_bin(paths, root, env=env)
+        if rc != 0:
+            return [], True
+        first = {p: open(p, "rb").read() for p in paths}
+        stamps = {p: (os.stat(p).st_mtime_ns, os.stat(p).st_ino) for p in paths}
+        # an unformatted file in front of, and in the middle of, the files just written
+        bad = os.path.join(d, "a_unformatted.pas")
+        with open(bad, "wb") as fh:
+            fh.write(b"x   :=   1 ;  y:=2;\n")
+        bad2 = os.path.join(d, "j03_unformatted.pas")
+        with open(bad2, "wb") as fh:
+            fh.write(b"begin  end ;;\n" + b"x := 1;\n" * 50)
+        order = sorted(paths + [bad, bad2])
+        rc2, out2, err2 = run_bin(["--mode", "check"] + order, root, env=env)
+        named = set()
+        for line in err2.decode(errors="replace").splitlines():
+            if "CHECK:" in line and "'" in line:
+                named.add(line.split("'")[1])
+        what = f"{sc['n']} files written in place, then --mode=check with {sc.get('threads', 1)} thread(s)"
+        wrongly = sorted(os.path.basename(x) for x in named if x not in (bad, bad2))
+        if wrongly:
+            problems.append({"clause": "check_accepts_own_output", "detail": f"--mode=check rejects files pasfmt has just written: {wrongly[:5]} ({what})"})
+        if rc2 == 0:
+            problems.append({"clause": "check_accepts_own_output", "detail": f"--mode=check exits 0 although two files are not formatted ({what})"})
+        os.remove(bad); os.remove(bad2)
+        rc3, out3, err3 = run_bin(paths, root, env=env)
+        for p in paths:
+            if open(p, "rb").read() != first[p]:
+                problems.append({"clause": "second_run_rewrites", "detail": f"a second in-place run changed {os.path.basename(p)} ({what})"})
+                break
+            if (os.stat(p).st_mtime_ns, os.stat(p).st_ino) != stamps[p]:
+                problems.append({"clause": "second_run_rewrites", "detail": f"a second in-place run rewrote the identical {os.path.basename(p)} ({what})"})
+                break
+        return problems, False
+    finally:
+        shutil.rmtree(root, ignore_errors=True)
+
+
 # ------------------------------------------------------------------------------------------------ C09 through the CLI
 
 def run_eol_scenario(idx, sc):
